@@ -278,6 +278,12 @@ fn start(l: &Launch, dir: &Path, addrs: &[String], ids: &Ids) -> Result<Running,
     let t0 = Instant::now();
     loop {
         if let Ok(Some(st)) = r.child.try_wait() {
+            use std::os::unix::process::ExitStatusExt;
+            // killed from outside (the kernel's OOM killer on a machine under memory pressure) is
+            // not the server's doing
+            if st.signal() == Some(9) {
+                return Err(format!("server was killed from outside ({st})"));
+            }
             return Err(format!("server exited at once with {st}"));
         }
         if http_raw(&addrs[0], "GET", "/", &[], None, false).is_ok() {
